@@ -27,7 +27,7 @@ PickTrace == blk > 0 /\ tid = 0
              /\ l' = 1 /\ UNCHANGED <<bad, rsvars>>
 
 \* ---- the event as an action of RecStore ---------------------------------------------------
-HandleOps == {"hwrite", "hread", "hclose"}
+HandleOps == {"hwrite", "hread", "hclose", "hdrop"}
 PathOf(e) == IF e.op \in HandleOps THEN handles[e.h].path ELSE e.p
 
 \* the call is one the specification speaks about (its guards hold)
@@ -45,6 +45,7 @@ Act(e) ==
     \/ e.op = "hwrite"  /\ HWrite(e.h, e.chunk, e.hdr)
     \/ e.op = "hread"   /\ HReadSel(e.h, e.sel)
     \/ e.op = "hclose"  /\ HClose(e.h)
+    \/ e.op = "hdrop"   /\ HDrop(e.h)
     \/ e.op = "write"   /\ WriteFile(e.p, e.chunk, e.hdr, e.delim)
     \/ e.op = "append"  /\ AppendReopen(e.p, e.chunk, e.hdr, e.delim)
     \/ e.op = "read"    /\ ReadBack(e.p)
